@@ -260,10 +260,12 @@ def run(case: dict, ctx) -> dict:
     if s1 == s2:
         s2 = (s1 + 1) % 65536
     stale = rng.choice([0, 0, 1, 2, 3])
+    # one object table with more entries than fit a 4 KiB page (its length is its entry count): many of them unallocated
+    big_ot = {"first_table_pages": 3, "pad_objects": rng.randrange(230, 520)} if rng.random() < 0.2 else {}
     raw, meta = w.build(rng, tree, ntables=ntables, seqs=(s1, s2), stale_tables=stale, free_prob=rng.choice([0, 0.15, 0.4]),
                         table_order=rng.choice(["shuffle", "shuffle", "seq"]), extra_object_tables=rng.choice([0, 0, 1, 3]),
                         trailer_mode=rng.choice(["12", "12", "0", "rand"]), stale_same_layout=rng.random() < 0.7,
-                        replay_entries=rng.choice([0, 0, 3]))
+                        replay_entries=rng.choice([0, 0, 3]), **big_ot)
     want = expected(tree)
     # writer self-check against the independent mini-decoder (never blames the repository)
     md = mini_decode(raw)
